@@ -36,6 +36,7 @@ type verifDispatchScn struct {
 	Placement string            `json:"placement"`
 	Boot      map[string]string `json:"boot"`
 	EpType    string            `json:"eptype"`
+	Twins     bool              `json:"twins"` // every endpoint carries the same configured name (names are optional and unchecked)
 	Steps     []verifStep       `json:"steps"`
 }
 
@@ -272,6 +273,9 @@ func TestVerif_Dispatch(t *testing.T) {
 			}
 			opts[i].Boot = sc.Boot[name]
 			opts[i].Type = sc.EpType
+			if sc.Twins {
+				opts[i].CfgName = "twin"
+			}
 			modelsOf[name] = opts[i].Models
 		}
 		var mod func(*config.Config)
